@@ -27,6 +27,18 @@ def check (input impl : String) : Verdict :=
       let recv := if n = 0 then "-" else joinWith "," ((List.range n).map (fun i => s!"e{i}"))
       let model := s!"log={log} outch=1 params=1 ids=1 recv={recv} returned=1"
       let toks := words impl
+      -- scenario ending in a failed Setup of incarnation `sf` (child process): the lifecycle up to that Setup, nothing after
+      match (words input).findSome? (fun w => if w.startsWith "setupfail=" then (w.drop 10).toString.toNat? else none) with
+      | some sf =>
+        let full := (lifecycle rets).flatMap showCall
+        let cut := (full.takeWhile (· != s!"setup{sf}")) ++ [s!"setup{sf}"]
+        let ilog := fields ((kvGet toks "log").getD "") ","
+        let sp : Option String :=
+          if ilog.any (· == s!"start{sf}") then some "started-before-setup-succeeded"
+          else if ilog.any (· == s!"factory{sf+1}") then some "not-one-fresh-instance-per-incarnation"
+          else none
+        { model := s!"log={joinWith "," cut} exit=1", spec := sp, tags := [s!"failures{k}", "setup-failure"] }
+      | none =>
       -- Spec, from the statement
       let ilog := fields ((kvGet toks "log").getD "") ","
       let pos (x : String) : Option Nat := ilog.findIdx? (· == x)
@@ -41,8 +53,9 @@ def check (input impl : String) : Verdict :=
         else if kvGet toks "params" ≠ some "1" then some "different-parameters"
         else if kvGet toks "ids" ≠ some "1" then some "different-id"
         else if kvGet toks "recv" ≠ some recv then some "events-of-incarnations-not-one-stream"
+        else if (fields ((kvGet toks "pauses").getD "-") ",").any (fun x => match x.toNat? with | some ms => ms < 1000 | none => false) then some "restarted-without-a-pause"
         else none
-      { model := model, spec := sp, tags := [s!"failures{k}"] ++ (if input.contains "delay" then ["slow-setup"] else []) ++ (if input.contains "cancelwrap" then ["wrapped-cancel"] else []) }
+      { model := model, implView := some (joinWith " " ((words impl).filter (fun w => !w.startsWith "pauses="))), spec := sp, tags := [s!"failures{k}"] ++ (if input.contains "runms" then ["long-running-incarnation"] else []) ++ (if input.contains "delay" then ["slow-setup"] else []) ++ (if input.contains "cancelwrap" then ["wrapped-cancel"] else []) }
     | none => { model := "bad-input" }
   | _ => { model := "bad-input" }
 
